@@ -40,10 +40,16 @@ TOKEN = re.compile(
 
 def make_frame(mode, w, h, rnd, style):
     """Deterministic content.  style 0: noise, 1: horizontal gradient, 2: flat,
-    3: noise with fully/partly transparent regions (alpha modes)."""
+    3: noise with fully/partly transparent regions (alpha modes), 4: flat bands alternating
+    with noise bands."""
     def chan(k):
         if style == 0 or style == 3:
             return rnd.randbytes(w * h)
+        if style == 4:  # bands of flat rows alternating with bands of noise rows (strips of
+            # very different compressibility inside one render)
+            band = max(1, h // 4)
+            return b"".join(bytes([(90 + 50 * k) % 256]) * w if (y // band) % 2 == 0 else rnd.randbytes(w)
+                            for y in range(h))
         if style == 1:
             return bytes(((x * 255 // max(w - 1, 1)) + 37 * k) % 256 for _ in range(h) for x in range(w))
         return bytes([(90 + 50 * k) % 256]) * (w * h)
